@@ -16,6 +16,9 @@ enum Msg {
 pub type OpFn = Box<dyn FnOnce() -> String + Send>;
 pub struct Scenario {
     pub ops: Vec<(String, OpFn)>,
+    /// phase of every operation (empty = all 0): only the unfinished operations of the lowest phase are
+    /// enabled, so operations alone in their phase run sequentially before / after the concurrent ones
+    pub phase: Vec<usize>,
     pub obs: Arc<dyn Fn() -> Obj + Send + Sync>,
 }
 
@@ -47,15 +50,18 @@ pub fn run_schedule(sc: Scenario, prefix: &[usize], pick: &mut dyn FnMut(&[usize
         }));
     }
     let obs = sc.obs;
+    let phase: Vec<usize> = if sc.phase.len() == n { sc.phase.clone() } else { vec![0; n] };
     let mut status = vec![0u8; n]; // 0 not started, 1 at a yield point, 2 done
     let mut events = vec![];
     let mut choices = vec![];
     let mut step = 0;
     loop {
-        let enabled: Vec<usize> = (0..n).filter(|&t| status[t] != 2).collect();
-        if enabled.is_empty() {
+        let live: Vec<usize> = (0..n).filter(|&t| status[t] != 2).collect();
+        if live.is_empty() {
             break;
         }
+        let cur = live.iter().map(|&t| phase[t]).min().unwrap();
+        let enabled: Vec<usize> = live.into_iter().filter(|&t| phase[t] == cur).collect();
         let t = if step < prefix.len() && enabled.contains(&prefix[step]) { prefix[step] } else { pick(&enabled) };
         choices.push((t, enabled.clone()));
         step += 1;
